@@ -1,5 +1,148 @@
-"""Independent knowledge about the configuration (filled in later rounds)."""
+"""Independent reading of the Cartesian configuration (DESIGN.md 3.9, 3.10, 3.4).
+
+Nothing here uses ``avocado_i2n.cartgraph`` or ``params_parser.join_str``: the configuration
+files are fed to the Cartesian parser alone (through the memoising front end) and the flat
+dictionaries are interpreted with this module's own suffix resolution and restriction matcher.
+"""
+import os
+import re
+
+from sim.memo import MemoParser
+
+_CACHE = {}
+
+
+def suite_path_of(scenario):
+    path = scenario.get("suite_path")
+    if path:
+        return path
+    import avocado_i2n
+    return os.path.join(os.path.dirname(os.path.dirname(os.path.abspath(avocado_i2n.__file__))), "tp_folder")
+
+
+def _dicts(suite_path, filename, extra=""):
+    key = (suite_path, filename, extra)
+    if key not in _CACHE:
+        parser = MemoParser()
+        parser.parse_string("hostname = simhost\n")
+        parser.parse_string("suite_path = %s\n" % suite_path)
+        parser.parse_string("test_pre_hook = %s\n" % os.path.join(suite_path, "controls", "pre_test.control"))
+        parser.parse_file(os.path.join(suite_path, "configs", filename))
+        if extra:
+            parser.parse_string(extra)
+        _CACHE[key] = list(parser.get_dicts())
+    return _CACHE[key]
+
+
+def worker_table(suite_path):
+    """worker id -> access parameters and vm restrictions, straight from nets.cfg."""
+    table = {}
+    for d in _dicts(suite_path, "nets.cfg"):
+        wid = d["shortname"]
+        access = {k: v for k, v in d.items() if k.startswith("nets_")}
+        access["nets"] = d.get("nets", wid.split(".")[-1])
+        only, no = {}, {}
+        for k, v in d.items():
+            if k.startswith("only_"):
+                only[k[5:]] = [t.strip() for t in v.split(",") if t.strip()]
+            elif k.startswith("no_"):
+                no[k[3:]] = [t.strip() for t in v.split(",") if t.strip()]
+        table[wid] = {"access": access, "only": only, "no": no, "name": d["name"]}
+    return table
+
+
+def vm_variants(suite_path):
+    """vm suffix -> list of variant names (dotted), from vms.cfg restricted to that vm."""
+    out = {}
+    for d in _dicts(suite_path, "guest-base.cfg"):
+        vms = d.get("vms", "").split()
+        break
+    for vm in vms:
+        names = []
+        for d in _dicts(suite_path, "vms.cfg", f"only {vm}\n"):
+            names.append(d["name"])
+        out[vm] = names
+    return out
+
+
+def token_matches(token, name):
+    return re.search(r"(\.|^)" + re.escape(token) + r"(\.|$)", name) is not None
+
+
+def apply_restriction(lines, names):
+    """Filter variant names by 'only a, b' / 'no a, b' lines (own matcher)."""
+    names = list(names)
+    for line in lines.splitlines():
+        line = line.strip()
+        if line.startswith("only "):
+            toks = [t.strip() for t in line[5:].split(",") if t.strip()]
+            names = [n for n in names if any(token_matches(t, n) for t in toks)]
+        elif line.startswith("no "):
+            toks = [t.strip() for t in line[3:].split(",") if t.strip()]
+            names = [n for n in names if not any(token_matches(t, n) for t in toks)]
+    return names
+
+
+def selected_tests(suite_path, restriction, params=None):
+    """Flat selected tests: name, vms, per-vm restrictions (from sets.cfg through the parser alone)."""
+    if "\n" not in restriction:
+        restriction = "only %s\n" % restriction
+    extra = restriction
+    out = []
+    for d in _dicts(suite_path, "sets.cfg", extra):
+        only, no = {}, {}
+        for k, v in d.items():
+            if k.startswith("only_"):
+                only[k[5:]] = [t.strip() for t in v.split(",") if t.strip()]
+            elif k.startswith("no_"):
+                no[k[3:]] = [t.strip() for t in v.split(",") if t.strip()]
+        out.append({"name": d["name"], "vms": d.get("vms", "").split(), "only": only, "no": no,
+                    "main_vm": d.get("main_vm")})
+    return out
+
+
+def compatible_variants(test, vm, worker, vm_strs, variants):
+    names = variants.get(vm, [])
+    names = apply_restriction(vm_strs.get(vm, ""), names)
+    if vm in test["only"]:
+        names = [n for n in names if any(token_matches(t, n) for t in test["only"][vm])]
+    if vm in test["no"]:
+        names = [n for n in names if not any(token_matches(t, n) for t in test["no"][vm])]
+    if vm in worker["only"]:
+        names = [n for n in names if any(token_matches(t, n) for t in worker["only"][vm])]
+    if vm in worker["no"]:
+        names = [n for n in names if not any(token_matches(t, n) for t in worker["no"][vm])]
+    return names
+
+
+def expected_tests(scenario):
+    """Selected flat tests that at least one worker of the set can run (under-approximated)."""
+    suite_path = suite_path_of(scenario)
+    table = worker_table(suite_path)
+    variants = vm_variants(suite_path)
+    tests = selected_tests(suite_path, scenario["tests"])
+    workers = [table[w] for w in scenario["nets"].split() if w in table]
+    default_vm = None
+    for d in _dicts(suite_path, "guest-base.cfg"):
+        default_vm = d.get("main_vm")
+        break
+    expected = []
+    for test in tests:
+        vms = test["vms"] or [test.get("main_vm") or default_vm]
+        for worker in workers:
+            if all(compatible_variants(test, vm, worker, scenario["vm_strs"], variants) for vm in vms):
+                expected.append(test["name"])
+                break
+    return expected
 
 
 def context_for(prop, history):
+    scenario = history["scenario"]
+    if prop == "C02":
+        try:
+            return {"expected_tests": {"*": expected_tests(scenario)}}
+        except Exception as error:  # resolver problems must never become verdicts
+            raise RuntimeError(f"resolver failed: {error!r}")
+    if prop == "C08":
+        return {"worker_table": worker_table(suite_path_of(scenario))}
     return {}
